@@ -35,7 +35,7 @@ Norm(v) == IF v.t # "arr" THEN v ELSE Arr([i \in 1..Len(v.a) |-> Norm(v.a[i])], 
 UScalar == { Myst, Null, Bool(TRUE), Bool(FALSE),
              IntV(0), NZero, IntV(1), IntV(-1), IntV(2), Fin(32), Fin(-96), Fin(160),
              Huge, NHuge, NaN, PInf, NInf, Tiny(1, TinyText), Tiny(-1, TinyText),
-             Dec(1, "0.26"), Dec(-1, "123.45"), Dec(1, "0.3"), Str("0.26"),
+             Dec(1, "0.26"), Dec(-1, "123.45"), Dec(1, "0.3"), Str("0.26"), Rat(1, 5, 3), Rat(-1, 1, 3), Rat(1, 1, 5),
              Str(""), Str("a"), Str("b"), Str("ab"), Str("0"), Str("1"), Str(" 1"), Str("1.5"), Str("-0"),
              Str("nan"), Str("inf"), Str("true"), Str("2") }
 UArr    == { EmptyArr, A1, A12, A21, AA1, AD, AN, AS, ADO, AMY }
@@ -77,7 +77,7 @@ URadix  == { NoParam, IntV(2), IntV(10), IntV(16), IntV(36), IntV(37), IntV(1), 
              NaN, PInf, Huge, Big(1, "4294967298"), Str("10"), Myst, Null, Bool(TRUE), A1, Tiny(1, TinyText) }
            \cup (IF Tier = "thorough" THEN { IntV(3), IntV(8), IntV(11), IntV(35), IntV(38), IntV(100), NInf, Fin(128 + 1), Big(-1, "4294967294"), Bool(FALSE), EmptyArr, Str("") } ELSE {})
 UTurnMore == { Fin(n) : n \in {2, -2, 31, -31, 33, -33, 64 * 7 + 32, -(64 * 7 + 32), 64 * 1000 + 1, 64 * 16777215, -64 * 16777215 + 63} }
-UTurn   == (IF Tier = "thorough" THEN UTurnMore ELSE {}) \cup { Dec(1, "2.6"), Dec(-1, "2.6"), Dec(1, "0.26"), Dec(-1, "0.26"), Dec(1, "2.4"), Dec(-1, "7.5000001"), Dec(1, "16777215.9"),
+UTurn   == (IF Tier = "thorough" THEN UTurnMore ELSE {}) \cup { Rat(1, 8, 3), Rat(-1, 8, 3), Rat(1, 1, 3), Rat(-1, 2, 3), Rat(1, 7, 3), Rat(1, 32767, 32766), Rat(-1, 1, 32767), Dec(1, "2.6"), Dec(-1, "2.6"), Dec(1, "0.26"), Dec(-1, "0.26"), Dec(1, "2.4"), Dec(-1, "7.5000001"), Dec(1, "16777215.9"),
              IntV(0), NZero, IntV(1), IntV(-1), Fin(32), Fin(-32), Fin(96), Fin(-96), Fin(160), Fin(-160), Fin(16), Fin(-16),
              Fin(48), Fin(-48), Fin(1), Fin(-1), Fin(63), Fin(-63), NaN, PInf, NInf, Huge, NHuge,
              Tiny(1, TinyText), Tiny(-1, TinyText), Tiny(1, "0.009"), Tiny(-1, "0.009"),
